@@ -204,6 +204,40 @@ func runOne(seed uint64, n int, out *bufio.Writer, long bool) {
 	}
 	h.ForgetWallet(w1) // the twin (with the addresses it discovered) is adopted below
 	h.W.Barrier()
+	// a block that pays an address the restore will discover, delivered around the start of the import:
+	//  - "mid-block": the handler is kept inside processConnectedBlock (commit done, volatile tip not yet
+	//    updated) while the import task starts, then let go: the worker's first statements run while
+	//    the handler is busy, its suspend is taken only after the block;
+	//  - "queued": the announcement is queued right after the task was pushed (either order may happen).
+	var payable []*hist.AddrInfo
+	for i, a := range w1.Addrs {
+		if used, _ := h.W.WM.VerifChainFetcher().CheckScriptHashUsed(a.ShBytes); used {
+			payable = w1.Addrs[:i+1]
+		}
+	}
+	payBlock := func() *massutil.Block {
+		a := payable[r.Intn(len(payable))]
+		b := h.BlockWith([]sim.Out{{Script: h.ScriptStd(a), Value: int64(1+r.Intn(50)) * 1000000}}, nil)
+		must(h.Attach(b))
+		return b
+	}
+	steer := ""
+	if !long && len(payable) > 0 {
+		switch k := r.Intn(100); {
+		case k < 35:
+			steer = "mid-block"
+		case k < 60:
+			steer = "queued"
+		}
+	}
+	if steer == "mid-block" {
+		g.HoldNextForeign()
+		d.Announce(payBlock())
+		if _, ok := g.WaitHeld(stepTimeout); !ok {
+			panic("handler did not reach its commit")
+		}
+		bump("handler_mid_block_at_import_start", 1)
+	}
 	g.Arm()
 	var twin *hist.WInfo
 	if useJSON {
@@ -214,6 +248,13 @@ func runOne(seed uint64, n int, out *bufio.Writer, long bool) {
 		bump("import_mnemonic", 1)
 	}
 	must(err)
+	if steer == "mid-block" {
+		time.Sleep(30 * time.Millisecond) // the worker is in asyncImport, blocked on (or about to send) suspend
+		g.Release()                       // the handler finishes the block and then parks
+	} else if steer == "queued" {
+		d.Announce(payBlock())
+		bump("announcement_queued_at_import_start", 1)
+	}
 	// every address of the original that the chain ever paid must have been discovered
 	known := map[int]bool{}
 	for _, a := range twin.Addrs {
@@ -461,6 +502,68 @@ func scenario(k int, out *bufio.Writer) {
 	h.Query()
 }
 
+// directed scenario 2: the handler is inside processConnectedBlock of a block that pays the wallet
+// (commit done, tip copy not yet updated) when the import task starts; the single batch must reach the
+// tip the handler has when it parks, i.e. include that block.
+func scenario2(out *bufio.Writer) {
+	r := rng.New(777)
+	h, err := hist.New(r, out, 800002, hist.Options{MaxReorg: 4}, nil)
+	must(err)
+	e := &env{h: h, r: r}
+	var d *hist.Drive
+	defer func() {
+		if rc := recover(); rc != nil {
+			h.Out = out
+			h.IEmit("X %d harness-error %v", 800002, rc)
+		}
+		h.End()
+		if d != nil {
+			d.G.Shutdown()
+		}
+		h.Close()
+		out.Flush()
+	}()
+	h.Out = nil
+	mark := len(h.Log)
+	w1, err := h.NewWallet()
+	must(err)
+	a1, err := h.NewAddress(w1, 0)
+	must(err)
+	for i := 0; i < 6; i++ {
+		e.attach(h.BlockWith([]sim.Out{{Script: h.ScriptStd(a1), Value: 10}}, nil), true)
+	}
+	mn, pass := w1.Mnemo, w1.Pass
+	h.CloseInstance()
+	h.Out = out
+	h.ReplayChainLines(mark, len(h.Log))
+	g := gate.New()
+	must(h.OpenInstance("twin", g.Wrap))
+	d = hist.NewDrive(h, g)
+	h.IEmit("S start")
+	h.ForgetWallet(w1)
+	h.W.Barrier()
+	x := h.BlockWith([]sim.Out{{Script: h.ScriptStd(a1), Value: 777}}, nil)
+	must(h.Attach(x))
+	g.HoldNextForeign()
+	d.Announce(x)
+	if _, ok := g.WaitHeld(stepTimeout); !ok {
+		panic("handler did not reach its commit")
+	}
+	g.Arm()
+	twin, err := h.ImportMnemonic(w1.Num, mn, pass, d.Pass(pass))
+	must(err)
+	h.AdoptWallet(twin)
+	time.Sleep(100 * time.Millisecond)
+	g.Release()
+	st, ok := d.RunImport(twin, nil, stepTimeout)
+	h.IEmit("C import-ended %s %v", st, ok)
+	d.Settle()
+	h.Listing(twin)
+	h.Query()
+	e.attach(h.BlockWith(nil, nil), true)
+	h.Query()
+}
+
 var reH = regexp.MustCompile(`(?m)^H (\d+)$`)
 
 func runWorkers(idx []string, j int) []byte {
@@ -536,7 +639,11 @@ func main() {
 		sim.Init(sim.Params{CoinbaseMaturity: 4, MinFrozenPeriod: 2, GapLimit: 20})
 		defer os.RemoveAll(hist.QuietLogs("fatal"))
 		w := bufio.NewWriter(os.Stdout)
-		scenario(*scen, w)
+		if *scen == 2 {
+			scenario2(w)
+		} else {
+			scenario(*scen, w)
+		}
 		w.Flush()
 		return
 	}
